@@ -17,10 +17,10 @@ RULE = ("each case = one generated (and possibly byte-mutated) DNS message hande
 # profile -> (quick cases, thorough cases, chunk)
 PLAN = [
     ("gen", 30000, 400000, 2000),          # generator / reference self-consistency
-    ("diff", 700000, 16000000, 8000),
+    ("diff", 600000, 14000000, 8000),
     ("diff-rdlen0", 30000, 600000, 2000),  # RDLENGTH-0 undecoded RRs confined here (known finding)
-    ("diff-flags", 200000, 4000000, 8000),
-    ("diff-escape", 150000, 3000000, 5000),
+    ("diff-flags", 160000, 3500000, 8000),
+    ("diff-escape", 120000, 2500000, 5000),
 ]
 
 
